@@ -28,7 +28,8 @@ BOUNDS = "respondents 0..30, valid categories 1..5, items 1..4, insertions 0..3"
 ASSUMPTIONS = [
     "population keywords: filter fraction is 1 and the population positive (the keyword maps to "
     "a monotone transform of the public estimates only then)",
-    "opposing_insertion against an array-type opposing dimension only with unknown ids",
+    "opposing_insertion against an array-type opposing dimension addresses its items: rows "
+    "sorted by that column; on columns the library does not resolve it (fallback asserted)",
     "population keywords with a difference (public estimate NaN) as sort key or inside the "
     "subtotal group: asserted like any NaN-valued vector; the library ranks them by the "
     "unmasked proportion - recorded known finding, signature " + POP_SIG,
@@ -109,7 +110,9 @@ def case_st(draw, shapes, strand=False):
         opp_ins_ids = [i["id"] for i in opp["ins"]]
         if opp["var"]["type"] in ("mr", "numarr") or \
                 (opp["var"]["type"] == "ca" and opp["part"] == "items"):
-            opp_ins_ids = []  # array opposing dimension: only unknown insertion ids
+            # array opposing dimension: no subtotals; "insertion" ids address its (possibly
+            # zz9-derived) items - implemented for the rows sort only
+            opp_ins_ids = list(opp["refs"])
     order = draw(xforms.order_st(own["refs"], opp["refs"] if opp else [], opp_ins_ids,
                                  "strand" if strand else ("rows" if k == 0 else "cols"),
                                  kinds=kinds,
@@ -190,6 +193,14 @@ def reference_values(case, R, orc_dims, strand):
         if order.get("element_id") not in refs:
             return None
         key = refs.index(order["element_id"])
+    elif opp_dim.kind not in ("cat", "ca_cats"):
+        # an item of an opposing ARRAY dimension addressed as an insertion: rows are sorted
+        # by that item's column; on columns the key is not resolved (payload order; the
+        # asymmetry is C10's known finding)
+        refs = _refs(opp_dim)
+        if axis != 0 or order.get("insertion_id") not in refs:
+            return None
+        key = refs.index(order["insertion_id"])
     else:
         opp_ins = case["base"].get(["rows_dimension", "columns_dimension"][1 - axis], {}) \
             .get("insertions", [])
